@@ -139,11 +139,9 @@ func concCase(c *kit.Ctx, h *hist, r *rand.Rand, nadders, nreaders, addOps, head
 				case 0:
 					built, _ := pool.Pending()
 					for a, txs := range built {
-						for i := 1; i < len(txs); i++ {
-							if txs[i].Nonce() != txs[i-1].Nonce()+1 {
-								h.violation("pending-nonce-gap", fmt.Sprintf("concurrent Pending(): account %d nonces %v are not gap-free", h.idx[a], nonces(txs)))
-								return
-							}
+						if class, gap := h.gapClass(txs); gap {
+							h.violation(class, fmt.Sprintf("concurrent Pending(): account %d nonces %v are not gap-free", h.idx[a], nonces(txs)))
+							return
 						}
 					}
 				case 1:
@@ -194,11 +192,7 @@ func concCase(c *kit.Ctx, h *hist, r *rand.Rand, nadders, nreaders, addOps, head
 					c.Count("conc_snapshots", 1)
 				} else {
 					if err := pool.VerifCheckInternals(); err != nil {
-						class := "internals"
-						if ie, ok := err.(*core.VerifInternalError); ok {
-							class = "internals:" + ie.Class
-						}
-						h.violation(class, "while running: "+err.Error())
+						h.violation(h.internalsClass(err), "while running: "+err.Error())
 						return
 					}
 					c.Count("conc_internal_walks", 1)
